@@ -1,6 +1,6 @@
 #!/bin/sh
 # usage: trymut.sh <patch.diff> <Cxx...>   applies patch to /repo, runs checks, reverts.
-p="$1"; shift
+p="$(realpath "$1")"; shift
 cd /repo || exit 2
 git apply "$p" || { echo "PATCH DOES NOT APPLY: $p"; exit 3; }
 cd /verif
